@@ -118,7 +118,7 @@ N_ALLOC = 16
 
 
 class World:
-    def __init__(self, cfg, trade, seed=0):
+    def __init__(self, cfg, trade, seed=0, extra_features=None):
         self.cfg = cfg
         self.trade = trade
         self.grid = list(cfg["grid"])
@@ -151,7 +151,8 @@ class World:
             space = BoxPortfolio([self.A, self.B], low=0.0, high=float(N_ALLOC), as_weights=False)
         else:
             space = BoxPortfolio([self.A, self.B], low=0.0, high=1.0)
-        self.env = TradingEnv(action_space=space, state=[Rec(self.sink), RecX(self.sinkx)], transmitter=tr,
+        feats = (extra_features(self) if extra_features else []) + [Rec(self.sink), RecX(self.sinkx)]
+        self.env = TradingEnv(action_space=space, state=feats, transmitter=tr,
                               latency=cfg["lat"], steps_delay=cfg["delay"],
                               episode_length=(cfg["eplen"] or None), initial_cash=1000.0)
         self.sink.env = self.env
